@@ -312,7 +312,7 @@ def _run(ctx, pq):
         L.gen_paths_samples(ctx, [], rng.sample(ok_paths, min(40, len(ok_paths))) + ["", "part.0.parquet", "/x", "a/"])
     # ---------------------------------------------------------------- E: whole datasets
     n_e = 160 if quick else 1500
-    cases = L.load_corpus("C08") + [gen_frame_case(rng, i < (14 if quick else 56), i) for i in range(n_e)]   # corpus, confirmation/regression streams, random
+    cases = L.load_corpus("C08") + [gen_frame_case(rng, i < (16 if quick else 64), i) for i in range(n_e)]   # corpus, confirmation/regression streams, random
     # forked workers (harness.common.pmap): a native crash or a hang while writing/reading is a failing input
     results = L.run_dataset_jobs(ctx, check_dataset, cases, "e", _replayable)
     for case, res in zip(cases, results):
@@ -427,6 +427,25 @@ def gen_column(rng, kind, n, drill):
         if nulls and n:
             a[np.array([rng.random() < 0.25 for _ in range(n)], dtype=bool)] = np.datetime64("NaT")
         return pd.Series(a).dt.tz_localize("UTC").dt.tz_convert(rng.choice(["UTC", "Europe/Berlin", "America/New_York", "Asia/Kolkata"]))
+    if kind == "onekey":      # one distinct value, NULLs around it, a tail of NULLs only
+        sub = rng.choice(["str", "float", "time", "intx", "cat", "boolx"])
+        one = {"str": "a", "float": 0.5, "time": np.datetime64("2020-01-01T00:00:00", "ns"), "intx": 7, "cat": "zz", "boolx": True}[sub]
+        mask = [(rng.random() < 0.5 and r < max(1, n - 3)) for r in range(n)]
+        if n and not any(mask):
+            mask[0] = True
+        vals = [one if m else None for m in mask]
+        if sub == "str":
+            return pd.Series(np.array(vals + [None], dtype=object)[:-1])
+        if sub == "float":
+            return pd.Series(np.array([float("nan") if v is None else v for v in vals], dtype="float64"))
+        if sub == "time":
+            a = np.array([one] * n, dtype="datetime64[ns]")
+            if n:
+                a[np.array([not m for m in mask], dtype=bool)] = np.datetime64("NaT")
+            return pd.Series(a)
+        if sub == "cat":
+            return pd.Series(pd.Categorical.from_codes([1 if m else -1 for m in mask], categories=["a", "zz", "q"]))
+        return pd.Series(pd.array(vals, dtype="Int64" if sub == "intx" else "boolean"))
     if kind == "allnull":
         return pd.Series(np.array([None if (r // 2) % 2 == 0 else "z" for r in range(n)], dtype=object))
     if kind == "catnum":       # categorical whose labels are numbers, booleans or timestamps (label type recorded since fix)
@@ -500,7 +519,7 @@ def gen_frame_case(rng, confirm, i):
     n_on = rng.choice([1, 1, 2, 2, 3])
     kinds = [rng.choice(["int", "int", "bool", "float", "time", "str", "strnum" if scheme == "hive" else "str", "cat",
                          "intx", "boolx", "floatx", "strx", "timetz", "pct", "catnumtxt", "intshare"]) for _ in range(n_on)]
-    which = i % 7 if confirm else -1
+    which = i % 8 if confirm else -1
     if confirm:
         if which == 0:
             scheme, kinds[0] = "hive", "catnum"
@@ -512,6 +531,8 @@ def gen_frame_case(rng, confirm, i):
             scheme, n_on, kinds = "hive", 2, rng.choice([["catnumtxt", "intshare"], ["intshare", "catnumtxt"]])
         elif which == 6:        # percent sequences and friends in text keys
             kinds[0] = "pct"
+        elif which == 7:        # ONE distinct key + NULL keys (C08_single_key_with_nulls), chunks of NULL keys only (C08_all_null_chunk_writes_nothing)
+            kinds[0] = "onekey"
         elif which == 2:
             scheme, n_on, kinds = "drill", 2, [rng.choice(["str", "int"]), rng.choice(["bool", "time", "int"])]
         else:       # regression stream of fix d63c479: categorical key next to a key column that is all NULL in a chunk
@@ -532,7 +553,7 @@ def gen_frame_case(rng, confirm, i):
     rng.shuffle(order)
     df = pd.DataFrame({c: cols[c] for c in order})
     rk = rng.choice(["none", "int", "int", "list"])
-    if which == 3:
+    if which in (3, 7):
         rk = "int"
     if rk == "none" or n == 0:
         rgo, rk = None, "none"
